@@ -356,6 +356,37 @@ fn cases(tier: Tier) -> Vec<Case> {
     out
 }
 
+/// A user-defined shape announcing (and emitting) `size` bytes, written to a discarding destination: the stored
+/// content length is (size + 4) / 2 words, also where size + 4 exceeds 2^31.
+pub fn giant_verdicts(size: usize) -> Vec<(String, String)> {
+    use super::c12::{Blob, Sink};
+    let shp = Sink::new(None);
+    let s2 = shp.clone();
+    let r = catch(move || {
+        let mut w = ShapeWriter::new(s2);
+        w.write_shape(&Blob { size }).map_err(|e| err_kind(&e))
+    });
+    match r {
+        Err(p) => vec![(format!("user-shape:{}", p.sig()), format!("a shape announcing {} bytes: {}", size, p.msg))],
+        Ok(Err(e)) => vec![("user-shape:write-failed".to_string(), format!("a shape announcing {} bytes on a healthy destination: {}", size, e))],
+        Ok(Ok(())) => {
+            let d = shp.0.borrow();
+            let words = i32::from_be_bytes(d.head[104..108].try_into().unwrap());
+            let extent = d.extent;
+            let mut out = vec![];
+            if words as i64 * 2 != size as i64 + 4 {
+                out.push(("user-shape:record-header-length".to_string(), format!("a shape announcing and emitting {} bytes: the record header stores {} words, {} + 4 bytes are {} words", size, words, size, (size + 4) / 2)));
+            }
+            if extent != 100 + 8 + 4 + size as u64 {
+                out.push(("user-shape:emitted".to_string(), format!("{} bytes reached the destination, expected {}", extent, 100 + 8 + 4 + size as u64)));
+            }
+            out
+        }
+    }
+}
+
+const GIANT_SIZES: [usize; 6] = [1 << 20, (1 << 30) + 8, (1usize << 31) - 8, (1usize << 31) - 4, 1usize << 31, (3usize << 30) + 16];
+
 fn selftest() -> (u64, u64) {
     let case = Case { ty: Ty::PolygonZ, lens: vec![3, 4], kinds: vec![0, 1], closed: false, mvar: 0, foreign: None, fault: None };
     if !judge(&case, &observe(&case)).is_empty() {
@@ -412,13 +443,28 @@ pub fn check(tier: Tier) -> i32 {
     // the self-test runs the library too: on a tree that panics there it counts as failed (a verdict, if there is one,
     // takes precedence over it)
     let st = catch(|| selftest()).unwrap_or((1, 0));
+    let (mut agg, capped) = (agg, capped);
+    {
+        let mut g = Ctx::new();
+        for size in GIANT_SIZES {
+            let cj = json!({"user_shape_size": size});
+            let mut hh = Fnv::new();
+            hh.str(&cj.to_string());
+            g.case_done(hh.finish(), true, 13);
+            g.lib_calls += 1;
+            for (sig, d) in giant_verdicts(size) {
+                g.violation(sig, || cj.clone(), || d);
+            }
+        }
+        agg.absorb(merge(vec![g]));
+    }
     finish(
         RunInfo {
             prop: "C18",
             tier,
             level: "model_checking",
             engine: "E2 dense (parts, points-per-part) grid on the real WritableShape::size_in_bytes / write_to and ShapeWriter record header",
-            rule: "13 types x every part-length vector with <= maxp parts and lengths min..=maxl (full product up to 3 parts, {min, min+1, maxl} above) x kind patterns x {open, closed rings}, plus a deterministic ladder (1 x {10,100,1000,65536} points; EVERY part count 5..3000 for Polyline / PolygonM / Multipatch and {2049, 4097, 5000, 8193} parts x 2 points); plus shapes READ from hand-assembled size-consistent records (multipart types, 0..5 points, every ascending part start array of 0..3 entries, M block present / absent) whenever the reader accepts them; plus one shape per type written twice through a destination whose operation k (0..40) fails once with Interrupted / WouldBlock / TimedOut: when both writes report success the file equals the undisturbed one; non-trivial = more than one vertex",
+            rule: "13 types x every part-length vector with <= maxp parts and lengths min..=maxl (full product up to 3 parts, {min, min+1, maxl} above) x kind patterns x {open, closed rings}, plus a deterministic ladder (1 x {10,100,1000,65536} points; EVERY part count 5..3000 for Polyline / PolygonM / Multipatch and {2049, 4097, 5000, 8193} parts x 2 points); plus shapes READ from hand-assembled size-consistent records (multipart types, 0..5 points, every ascending part start array of 0..3 entries, M block present / absent) whenever the reader accepts them; plus user-defined shapes of 1 MiB .. 3 GiB (around 2^31) on a discarding destination: the stored content length; plus one shape per type written twice through a destination whose operation k (0..40) fails once with Interrupted / WouldBlock / TimedOut: when both writes report success the file equals the undisturbed one; non-trivial = more than one vertex",
             bounds: json!({"max_parts": tier.pick(4, 6), "max_len": tier.pick(5, 8), "cases": cs.len()}),
             exhaustive: true,
             assumptions: vec!["'random larger shapes' of the statement are replaced by the fixed ladder; sizes are affine in (parts, points), the grid pins every coefficient and the constant separately".into()],
@@ -434,6 +480,9 @@ pub fn check(tier: Tier) -> i32 {
 }
 
 pub fn replay(v: &Value) -> Vec<(String, String)> {
+    if let Some(size) = v.get("user_shape_size").and_then(|x| x.as_u64()) {
+        return giant_verdicts(size as usize);
+    }
     match Case::from_json(v) {
         None => vec![("bad-replay-file".into(), "cannot parse case".into())],
         Some(case) => match catch(|| observe(&case)) {
